@@ -19,7 +19,7 @@ Decls == {<<>>, <<"a">>, <<"a", "b">>}
 Exists == {"none", "same", "other", "other-errors"}
 PlaceScen == {[kind |-> "place", decl |-> d, ofile |-> f, opkg |-> p, exist |-> e, cwd |-> c, conv2 |-> c2,
                outdir |-> OutDir(d, f, c), outfile |-> OutFile(f), pkg |-> PkgName(d, "src", f, p, e, c)] :
-               d \in Decls, f \in OFiles, p \in OPkgs, e \in Exists, c \in CwdForms, c2 \in {"none", "same-file-same-pkg", "same-file-other-pkg", "same-file-other-name", "other-file-same-pkg", "vars", "vars-path-pkg", "two-opkg-lines"}}
+               d \in Decls, f \in OFiles, p \in OPkgs, e \in Exists, c \in CwdForms, c2 \in {"none", "same-file-same-pkg", "same-file-other-pkg", "same-file-other-name", "other-file-same-pkg", "vars", "vars-dotted", "vars-path-pkg", "two-opkg-lines"}}
              \cup {[kind |-> "place", decl |-> <<>>, ofile |-> "default", opkg |-> "absent", exist |-> "none", cwd |-> c, conv2 |-> "global-ofile",
                     outdir |-> <<>>, outfile |-> "x.go", pkg |-> ""] : c \in {"chdir-root", "flag-root"}}
 PlaceOK == {s \in PlaceScen : ValidPlace(s.decl, s.ofile, s.exist, s.cwd)}
